@@ -14,6 +14,8 @@ def cIf(v): return dict(t="if", v=v)
 BR1 = dict(fthr=1, fcap=1, frate=0, fexec=0, period=0, sthr=0, scap=0, delay=1000)
 BR2 = dict(fthr=2, fcap=2, frate=0, fexec=0, period=0, sthr=0, scap=0, delay=1000)
 BR23 = dict(fthr=2, fcap=3, frate=0, fexec=0, period=0, sthr=2, scap=2, delay=0)   # re-closes: delay 0, needs 2 successes
+BRT = dict(fthr=2, fcap=2, frate=0, fexec=2, period=20, sthr=0, scap=0, delay=3)    # 2 failures within 20 units; open for 3 units
+BRR = dict(fthr=0, fcap=0, frate=50, fexec=2, period=20, sthr=2, scap=3, delay=2)   # 50 % of >= 2 executions within 20 units; 2 of 3 trial successes close it
 
 def retry(max=2, h=(), a=(), rlf=False, dly=0, maxd=0): return dict(k="retry", max=max, h=TSet(h), a=TSet(a), rlf=rlf, dly=dly, maxd=maxd)
 def cb(id, cfg, h=()): return dict(k="cb", id=id, cfg=cfg, h=TSet(h))
@@ -44,6 +46,8 @@ CATALOG = {
     "cbA":   cb("cbA", BR1),
     "cbB":   cb("cbB", BR2),
     "cbC":   cb("cbC", BR23, h=[cE("E1")]),
+    "cbT":   cb("cbT", BRT),                              # time-based window, short open delay: reopening / trial executions inside a retry loop
+    "cbR":   cb("cbR", BRR),
     "rl2":   rl("rl2", 2),
     "rlP":   rl("rlP", 1, per=3),                        # one permit per period of 3 units: refusals and admissions across period boundaries
     "bh1":   bh("bh1", 1),
